@@ -33,10 +33,12 @@ import (
 	"strconv"
 	"strings"
 	"sync"
+	"syscall"
 	"testing"
 	"time"
 
 	pb "github.com/theparanoids/crypki/proto"
+	"github.com/theparanoids/ysshra/tlsutils"
 	"github.com/theparanoids/ysshra/verifh"
 	"golang.org/x/crypto/ssh"
 	"google.golang.org/grpc"
@@ -70,6 +72,7 @@ type zvsInfo struct {
 	Replies []string `json:"replies"` // hex of the key material each endpoint answers with
 	Codes   []int    `json:"codes"`   // status code of "rpc" endpoints
 	TryMs   int      `json:"tryms"`
+	Loaded0 []string `json:"loaded0"` // CA names TLS configurations of this process had read when the case started
 	Note    string   `json:"note,omitempty"`
 }
 
@@ -77,6 +80,8 @@ type zvsCase struct {
 	Tid    string    `json:"tid"`
 	Eps    []zvsTpl  `json:"eps"`
 	Bundle zvsBundle `json:"bundle"`
+	Ctx    string    `json:"ctx"`  // request budget: "wide" (default) | "tight"
+	Hist   string    `json:"hist"` // process history: "none" (default) | "before" | "between" | "signer" | "rotate"
 	Info   *zvsInfo  `json:"info"`
 }
 
@@ -88,6 +93,8 @@ type zvsPlan struct {
 	Replays []zvsCase `json:"replays"`
 	Lanes   int       `json:"lanes"`
 	TryMs   int       `json:"tryms"`
+	Preload []string  `json:"preload"` // CA names another TLS configuration loads before anything else (re-execution of a history)
+	OnlyCas []string  `json:"onlycas"` // random cases use bundles over exactly these CAs (a process with a controlled history)
 }
 
 type zvsReset struct {
@@ -95,6 +102,8 @@ type zvsReset struct {
 	Tid    string    `json:"tid"`
 	Eps    []zvsTpl  `json:"eps"`
 	Bundle zvsBundle `json:"bundle"`
+	Ctx    string    `json:"ctx"`
+	Hist   string    `json:"hist"`
 	Info   *zvsInfo  `json:"info"`
 }
 
@@ -102,6 +111,31 @@ type zvsStep struct {
 	Ev  string                 `json:"ev"`
 	Tid string                 `json:"tid"`
 	E   map[string]interface{} `json:"e"`
+}
+
+// zvsLoaded tracks which CA files any TLS configuration built in this process has been given (process history).
+var (
+	zvsLoadedMu sync.Mutex
+	zvsLoaded   = map[string]bool{}
+)
+
+func zvsNoteLoaded(names ...string) {
+	zvsLoadedMu.Lock()
+	for _, n := range names {
+		zvsLoaded[n] = true
+	}
+	zvsLoadedMu.Unlock()
+}
+
+func zvsLoadedNow() []string {
+	zvsLoadedMu.Lock()
+	defer zvsLoadedMu.Unlock()
+	out := []string{}
+	for n := range zvsLoaded {
+		out = append(out, n)
+	}
+	sort.Strings(out)
+	return out
 }
 
 func zvsNorm(s []string) []string {
@@ -229,7 +263,7 @@ func zvsInstantiate(c *zvsCase, r *mrand.Rand) {
 }
 
 // zvsRandomCase draws a case with concrete reply shapes the model abstracts away (direction B).
-func zvsRandomCase(tid string, r *mrand.Rand, tlsMode bool) zvsCase {
+func zvsRandomCase(tid string, r *mrand.Rand, tlsMode bool, onlyCas []string) zvsCase {
 	n := 1 + r.Intn(4)
 	if !tlsMode && r.Intn(12) == 0 {
 		n = 0
@@ -237,6 +271,19 @@ func zvsRandomCase(tid string, r *mrand.Rand, tlsMode bool) zvsCase {
 	c := zvsCase{Tid: tid, Eps: make([]zvsTpl, n), Bundle: zvsBundle{Cas: []string{}, Lay: "none"}, Info: &zvsInfo{Replies: make([]string, n), Codes: make([]int, n)}}
 	if tlsMode {
 		bs := []zvsBundle{{[]string{"ca1"}, "one"}, {[]string{"ca1", "ca2"}, "two"}, {[]string{"ca1", "ca2"}, "concat"}, {[]string{"ca2"}, "one"}, {[]string{"ca2", "ca1"}, "two"}}
+		if len(onlyCas) > 0 {
+			var sel []zvsBundle
+			want := append([]string{}, onlyCas...)
+			sort.Strings(want)
+			for _, b := range bs {
+				have := append([]string{}, b.Cas...)
+				sort.Strings(have)
+				if strings.Join(have, ",") == strings.Join(want, ",") {
+					sel = append(sel, b)
+				}
+			}
+			bs = sel
+		}
 		c.Bundle = bs[r.Intn(len(bs))]
 	}
 	noise := []string{"", "   ", "# a comment line", "-----BEGIN SSH-----", "garbage", "two words", "ssh-rsa notbase64!", "\t"}
@@ -389,6 +436,7 @@ func zvsNewPKI(dir string) *zvsPKI {
 	}
 	p.caFile["ca1"] = w("ca1.pem", p.ca["ca1"].pem)
 	p.caFile["ca2"] = w("ca2.pem", p.ca["ca2"].pem)
+	p.caFile["caX"] = w("caX.pem", p.ca["caX"].pem)
 	p.caFile["concat"] = w("ca12.pem", append(append([]byte{}, p.ca["ca1"].pem...), p.ca["ca2"].pem...))
 	// the trust store of the RA's host, under the control of the harness: it holds the CA "caH" only.  Go reads these
 	// variables when the system pool is first used, which the code under test must never do for CA servers.
@@ -463,6 +511,39 @@ func (p *zvsPKI) bundleFiles(b zvsBundle) []string {
 		fs = append(fs, p.caFile[c])
 	}
 	return fs
+}
+
+// others returns the names and files of the CAs a signer with bundle b must NOT trust (the material of history steps).
+func (p *zvsPKI) others(b zvsBundle) (names, files []string) {
+	in := map[string]bool{}
+	for _, c := range b.Cas {
+		in[c] = true
+	}
+	for _, c := range []string{"ca1", "ca2", "caX"} {
+		if !in[c] {
+			names = append(names, c)
+			files = append(files, p.caFile[c])
+		}
+	}
+	return
+}
+
+// privateBundle writes the bundle's files under their own paths for one case; content(i) is the proper content of file i.
+func (p *zvsPKI) privateBundle(tid string, b zvsBundle) (paths []string, content [][]byte) {
+	dir := filepath.Join(p.dir, "case_"+tid)
+	zvsMust(os.MkdirAll(dir, 0o700))
+	if b.Lay == "concat" {
+		var all []byte
+		for _, c := range b.Cas {
+			all = append(all, p.ca[c].pem...)
+		}
+		return []string{filepath.Join(dir, "bundle.pem")}, [][]byte{all}
+	}
+	for k, c := range b.Cas {
+		paths = append(paths, filepath.Join(dir, fmt.Sprintf("ca_%d.pem", k)))
+		content = append(content, p.ca[c].pem)
+	}
+	return
 }
 
 func (p *zvsPKI) serverConfig(e zvsTpl, pos int) *tls.Config {
@@ -607,12 +688,10 @@ func (s *zvsStub) PostUserSSHCertificate(ctx context.Context, in *pb.SSHCertific
 	}()
 	same := l.req != nil && proto.Equal(in, l.req)
 	var h *zvsHit
-	if l.tls {
-		for k := len(l.hits) - 1; k >= 0; k-- {
-			if l.hits[k].pos == s.pos {
-				h = l.hits[k]
-				break
-			}
+	for k := len(l.hits) - 1; k >= 0; k-- { // the connection this call arrived on was recorded when it was made
+		if l.hits[k].pos == s.pos {
+			h = l.hits[k]
+			break
 		}
 	}
 	if h == nil {
@@ -774,7 +853,23 @@ func (l *zvsLane) dial(ctx context.Context, addr string) (net.Conn, error) {
 	if ip == nil || ip[0] != 127 || int(ip[3]) < 1 || int(ip[3]) > zvsMaxPos {
 		return nil, fmt.Errorf("verif: no harness server at %q", addr)
 	}
-	return l.bufl[int(ip[3])].DialContext(ctx)
+	pos := int(ip[3])
+	l.mu.Lock()
+	l.hits = append(l.hits, &zvsHit{seq: len(l.hits), pos: pos, hs: "none", ver: "none", cc: "none", done: true, same: true})
+	cls := ""
+	if l.cur != nil && pos <= len(l.cur.Eps) {
+		cls = l.cur.Eps[pos-1].Cls
+	}
+	l.mu.Unlock()
+	switch cls {
+	case "refused": // nothing listens there
+		return nil, &net.OpError{Op: "dial", Net: "tcp", Addr: &net.TCPAddr{IP: net.IPv4(127, 0, 0, byte(pos)), Port: 4443}, Err: os.NewSyscallError("connect", syscall.ECONNREFUSED)}
+	case "acceptclose": // the peer accepts and hangs up at once
+		a, b := net.Pipe()
+		b.Close()
+		return a, nil
+	}
+	return l.bufl[pos].DialContext(ctx)
 }
 
 // zvsBase holds the dial options of a real NewSigner per per-try timeout (mode c17).
@@ -827,12 +922,66 @@ func (l *zvsLane) run(c *zvsCase, base *zvsBase, r *mrand.Rand, tryMs int) []int
 	for m := range names {
 		names[m] = fmt.Sprintf("127.0.0.%d", m+1)
 	}
+	if c.Ctx == "" {
+		c.Ctx = "wide"
+	}
+	if c.Hist == "" {
+		c.Hist = "none"
+	}
+	hasDead := false
+	for m := range c.Eps {
+		hasDead = hasDead || c.Eps[m].Cls == "refused" || c.Eps[m].Cls == "acceptclose"
+	}
+	c.Info.Loaded0 = zvsLoadedNow()
+	// the history step: another TLS configuration of this process reads the CA files this signer must not trust
+	otherConf := func(files []string, names []string, second bool) {
+		var err error
+		func() {
+			defer func() {
+				if p := recover(); p != nil {
+					err = fmt.Errorf("panic: %v", p)
+				}
+			}()
+			if second {
+				_, err = NewSigner(SignerConfig{TLSClientKeyFile: l.pki.cliKey, TLSClientCertFile: l.pki.cliCert, TLSCACertFiles: files,
+					CrypkiEndpoints: []string{"127.0.0.1"}, CrypkiPort: 4443, Retries: 1, PerTryTimeout: time.Second})
+			} else {
+				_, err = tlsutils.TLSClientConfiguration(l.pki.cliCert, l.pki.cliKey, files)
+			}
+		}()
+		zvsNoteLoaded(names...)
+		step(map[string]interface{}{"op": "otherconf", "err": err != nil})
+	}
+	bundleFiles := l.pki.bundleFiles(c.Bundle)
 	switch c.Info.Via {
 	case "tls", "newsigner", "gensignconf":
 		port := uint(l.port)
 		if port == 0 {
 			port = 4443
 		}
+		onames, ofiles := l.pki.others(c.Bundle)
+		switch c.Hist {
+		case "before":
+			otherConf(ofiles, onames, false)
+		case "signer":
+			otherConf(ofiles, onames, true)
+		case "rotate":
+			// the bundle's own paths first hold the other CAs and are read by another configuration, then get their content
+			var wrong []byte
+			for _, o := range onames {
+				wrong = append(wrong, l.pki.ca[o].pem...)
+			}
+			paths, content := l.pki.privateBundle(c.Tid, c.Bundle)
+			for _, f := range paths {
+				zvsMust(os.WriteFile(f, wrong, 0o600))
+			}
+			otherConf(paths, onames, false)
+			for k, f := range paths {
+				zvsMust(os.WriteFile(f, content[k], 0o600))
+			}
+			bundleFiles = paths
+		}
+		zvsNoteLoaded(c.Bundle.Cas...)
 		var err error
 		func() {
 			defer func() {
@@ -845,7 +994,7 @@ func (l *zvsLane) run(c *zvsCase, base *zvsBase, r *mrand.Rand, tryMs int) []int
 				for m := range names {
 					eps[m] = names[m]
 				}
-				conf := map[string]interface{}{"tls_client_key_file": l.pki.cliKey, "tls_client_cert_file": l.pki.cliCert, "tls_ca_cert_files": l.pki.bundleFiles(c.Bundle),
+				conf := map[string]interface{}{"tls_client_key_file": l.pki.cliKey, "tls_client_cert_file": l.pki.cliCert, "tls_ca_cert_files": bundleFiles,
 					"crypki_endpoints": eps, "crypki_port": port, "retries": 1, "per_try_timeout": "5s"}
 				var sc SignerConfig
 				sc, err = decodeSignerConfig(conf)
@@ -853,7 +1002,7 @@ func (l *zvsLane) run(c *zvsCase, base *zvsBase, r *mrand.Rand, tryMs int) []int
 					s, err = NewSigner(sc)
 				}
 			} else {
-				s, err = NewSigner(SignerConfig{TLSClientKeyFile: l.pki.cliKey, TLSClientCertFile: l.pki.cliCert, TLSCACertFiles: l.pki.bundleFiles(c.Bundle),
+				s, err = NewSigner(SignerConfig{TLSClientKeyFile: l.pki.cliKey, TLSClientCertFile: l.pki.cliCert, TLSCACertFiles: bundleFiles,
 					CrypkiEndpoints: names, CrypkiPort: port, Retries: 1, PerTryTimeout: 5 * time.Second})
 			}
 		}()
@@ -861,6 +1010,9 @@ func (l *zvsLane) run(c *zvsCase, base *zvsBase, r *mrand.Rand, tryMs int) []int
 		if err != nil || s == nil {
 			c.Info.Note = fmt.Sprint(err)
 			s = nil
+		}
+		if c.Hist == "between" {
+			otherConf(ofiles, onames, false)
 		}
 	case "directnil":
 		s = &Signer{endpoints: nil, dialOptions: base.get(10000)}
@@ -878,6 +1030,8 @@ func (l *zvsLane) run(c *zvsCase, base *zvsBase, r *mrand.Rand, tryMs int) []int
 		t := 10000
 		if hasDeadline {
 			t = tryMs
+		} else if hasDead {
+			t = 3000 // a dead endpoint costs at most this much when the client insists on waiting for it
 		}
 		c.Info.TryMs = t
 		var err error
@@ -898,23 +1052,42 @@ func (l *zvsLane) run(c *zvsCase, base *zvsBase, r *mrand.Rand, tryMs int) []int
 		}
 		s.dialOptions = append(append([]grpc.DialOption{}, s.dialOptions...), grpc.WithTransportCredentials(insecure.NewCredentials()), grpc.WithContextDialer(l.dial))
 	}
-	res := zvsReset{Ev: "reset", Tid: c.Tid, Eps: c.Eps, Bundle: zvsBundle{Cas: zvsNorm(c.Bundle.Cas), Lay: c.Bundle.Lay}, Info: c.Info}
+	res := zvsReset{Ev: "reset", Tid: c.Tid, Eps: c.Eps, Bundle: zvsBundle{Cas: zvsNorm(c.Bundle.Cas), Lay: c.Bundle.Lay}, Ctx: c.Ctx, Hist: c.Hist, Info: c.Info}
 	if s != nil {
 		var certs []ssh.PublicKey
 		var comments []string
 		var err error
-		pan := false
-		func() {
+		pan, hang := false, false
+		// request budget: "tight" is shorter than one per-try timeout (only used when every failing endpoint fails fast)
+		budget := 60 * time.Second
+		if c.Ctx == "tight" {
+			budget = 1500 * time.Millisecond
+		}
+		ctx, cancel := context.WithTimeout(context.Background(), budget)
+		finished := make(chan struct{})
+		go func() {
+			defer close(finished)
 			defer func() {
 				if p := recover(); p != nil {
 					pan = true
 					c.Info.Note = fmt.Sprintf("panic: %v", p)
 				}
 			}()
-			ctx, cancel := context.WithTimeout(context.Background(), 60*time.Second)
-			defer cancel()
 			certs, comments, err = s.Sign(ctx, req)
 		}()
+		// watchdog: Sign has to return once its context has expired
+		select {
+		case <-finished:
+		case <-time.After(budget + 20*time.Second):
+			hang = true
+			cancel()
+			select {
+			case <-finished:
+			case <-time.After(10 * time.Second):
+			}
+			certs, comments, err = nil, nil, fmt.Errorf("verif: Sign did not return within its budget plus 20s")
+		}
+		cancel()
 		// a signer that keeps connections offers a way to release them: use it (interface assertion, so that the harness
 		// compiles whether or not the method exists)
 		func() {
@@ -969,7 +1142,7 @@ func (l *zvsLane) run(c *zvsCase, base *zvsBase, r *mrand.Rand, tryMs int) []int
 				c.Info.Note = c.Info.Note[:300]
 			}
 		}
-		step(map[string]interface{}{"op": "return", "err": err != nil, "pan": pan, "certs": fps, "cm": cms})
+		step(map[string]interface{}{"op": "return", "err": err != nil, "pan": pan, "hang": hang, "certs": fps, "cm": cms})
 	}
 	l.mu.Lock()
 	l.cur = nil
@@ -989,10 +1162,18 @@ func TestVerifSigner(t *testing.T) {
 	tr, err := verifh.OpenTrace(outPath)
 	zvsMust(err)
 	tlsMode := plan.Mode == "c18"
-	dir := filepath.Join(filepath.Dir(outPath), "pki")
+	dir, err := os.MkdirTemp(filepath.Dir(outPath), "pki")
+	zvsMust(err)
 	defer os.RemoveAll(dir)
 	pki := zvsNewPKI(dir)
 	base := &zvsBase{pki: pki, opts: map[int][]grpc.DialOption{}}
+	for _, n := range plan.Preload { // re-creates the history of TLS configurations a recorded case started from
+		if f, ok := pki.caFile[n]; ok && n != "concat" && n != "host" {
+			_, err := tlsutils.TLSClientConfiguration(pki.cliCert, pki.cliKey, []string{f})
+			zvsMust(err)
+			zvsNoteLoaded(n)
+		}
+	}
 	if plan.Lanes <= 0 {
 		plan.Lanes = 8
 	}
@@ -1014,7 +1195,7 @@ func TestVerifSigner(t *testing.T) {
 		}
 	}
 	for k := 0; k < plan.Random; k++ {
-		cases = append(cases, zvsRandomCase(fmt.Sprintf("r%d", k), rnd, tlsMode))
+		cases = append(cases, zvsRandomCase(fmt.Sprintf("r%d", k), rnd, tlsMode, plan.OnlyCas))
 	}
 	for k := range plan.Replays {
 		c := plan.Replays[k]
@@ -1025,9 +1206,11 @@ func TestVerifSigner(t *testing.T) {
 		cases = append(cases, c)
 	}
 	// warm the certificate pool outside the timed region (RSA key generation)
-	for a := 1; a <= 9; a++ {
-		for b := 1; b <= 6; b++ {
-			zvsCert(a, b)
+	if plan.Random > 0 || len(cases) > 300 {
+		for a := 1; a <= 9; a++ {
+			for b := 1; b <= 6; b++ {
+				zvsCert(a, b)
+			}
 		}
 	}
 	work := make(chan int, len(cases))
